@@ -2,7 +2,8 @@
 """C09 generator + reference decompressor (Python gzip / bz2 / zlib; deterministic, no randomness).
 
   gen.py --tier quick|thorough --out DIR [--jobs N]   whole corpus: files + DIR/manifest.txt
-  gen.py --one '<kind>;<pieces>;<mut>' --out DIR        one case (used by `h9 --replay`)
+  gen.py --one '<kind>;<pieces>;<mut>' --out DIR        one file (used by `h09 --replay`); <mut> = - | T (every
+                                                        truncation, S line with V=0) | m[,m...] (M lines)
 
 Payloads are slices of three fixed master byte streams
   I  incompressible: 64-bit LCG (MMIX constants), top 32 bits of every state, little endian
@@ -328,8 +329,17 @@ def align_plan(tier):
     return w, centers, c1_targets
 
 
+def _tick(label, t0=[None]):
+    import time
+    now = time.time()
+    if os.environ.get("C09_GEN_TIMING") and t0[0] is not None:
+        sys.stderr.write("gen: %-28s %6.1fs\n" % (label, now - t0[0]))
+    t0[0] = now
+
+
 def build_corpus(tier, out, jobs):
     G["out"] = out
+    _tick("start")
     master("I", 3 * MIB + 17)
     master("C", 3 * MIB + 17)
     master("H", MIB)
@@ -376,6 +386,7 @@ def build_corpus(tier, out, jobs):
             if p1 is not None and c2 in m2 and c3 in m2:
                 files.append(("align", kind, [p1, m2[c2], m2[c3]]))
     missing = len(unreachable)
+    _tick("align: exact-length search")
 
     # ---- ltrunc: truncations / corruptions of larger files (reference evaluated per case)
     big = [[("I", 0, 65536, "")], [("C", 0, 300000, "")], [("I", 0, 40000, ""), ("I", 40000, 40000, "")],
@@ -392,6 +403,7 @@ def build_corpus(tier, out, jobs):
             pieces_idx.setdefault((kind, p), len(pieces_idx))
     plen = dict(pool.map(w_compress, [(i, k, p) for (k, p), i in pieces_idx.items()], chunksize=1))
 
+    _tick("compress pieces")
     # ---- phase 2: assemble files, reference-check them
     ftasks = []
     for fidx, (part, kind, pieces) in enumerate(files):
@@ -415,6 +427,7 @@ def build_corpus(tier, out, jobs):
     for i in pieces_idx.values():
         os.unlink(os.path.join(out, "p%d.bin" % i))
 
+    _tick("assemble + reference")
     # ---- sweep: every truncation and single-byte corruption of small files
     V = 255 if tier == "thorough" else 8
     small_files = {
@@ -448,6 +461,7 @@ def build_corpus(tier, out, jobs):
         parts.setdefault(sidx, []).append((lo, codes, local))
     pool.close()
     pool.join()
+    _tick("sweep reference tables")
     sweep_lines = []
     for sidx, (kind, pieces, path, data, P, blobs) in enumerate(sweeps):
         table = array.array("H")
@@ -489,6 +503,7 @@ def build_corpus(tier, out, jobs):
 
 
 def build_one(spec, out):
+    """one file for `h09 --replay`: mut = '-' (F line) | 'T' (S line with V=0: every truncation) | m[,m...] (M lines)"""
     kind, pieces_s, mut = spec.split(";")
     pieces = parse_pieces(pieces_s)
     blobs = [compress_piece(kind, p) for p in pieces]
@@ -503,14 +518,26 @@ def build_one(spec, out):
     with open(os.path.join(out, "manifest.txt"), "w") as mf:
         if mut == "-":
             mf.write("F\tone\t" + head + "\n")
-        else:
-            t, v = reference(kind, apply_mut(data, mut))
-            exp = "E"
-            if t == "B":
-                exp = path + ".m0"
-                with open(os.path.join(out, exp), "wb") as f:
+        elif mut == "T":
+            _, _, codes, local = w_sweep((0, kind, data, 0, 0, len(data)))
+            for k, v in enumerate(local):
+                with open(os.path.join(out, "%s.res%d" % (path, k + 1)), "wb") as f:
                     f.write(v)
-            mf.write("M\tone\t" + head + "\t" + mut + "\t" + exp + "\n")
+            table = array.array("H", codes)
+            if sys.byteorder != "little":
+                table.byteswap()
+            with open(os.path.join(out, path + ".tab"), "wb") as f:
+                table.tofile(f)
+            mf.write("S\tone\t%s\t0\t%s\t%d\n" % (head, path + ".tab", len(local)))
+        else:
+            for k, m in enumerate(mut.split(",")):
+                t, v = reference(kind, apply_mut(data, m))
+                exp = "E"
+                if t == "B":
+                    exp = path + ".m%d" % k
+                    with open(os.path.join(out, exp), "wb") as f:
+                        f.write(v)
+                mf.write("M\tone\t" + head + "\t" + m + "\t" + exp + "\n")
 
 
 def main():
